@@ -47,33 +47,105 @@ def parseOp? : String → Option Op
   | "P" => some .fullPass | "E" => some .getEventCounts | "R" => some .getExpectedRates
   | "S" => some .spatialCounts | "M" => some .magnitudeCounts
   | "N" => some .numberTest | "TS" => some .spatialTest | "TM" => some .magnitudeTest
+  | "TP" => some .pseudolikelihoodTest | "TR" => some .resampledMagnitudeTest | "TL" => some .mllMagnitudeTest
   | _ => none
 
 def showEv (e : Ev) : String := s!"{if e.keep then 1 else 0}:{e.cell}"
 def showCat (c : Cat) : String := s!"{showOpt toString c.id}={showList showEv c.events}"
+def showCats (l : List Cat) : String := if l.isEmpty then "-" else ";".intercalate (l.map showCat)
 def showOut : Out → String
-  | .cats l => "c" ++ (if l.isEmpty then "-" else ";".intercalate (l.map showCat))
+  | .cats l => "c" ++ showCats l
+  | .cats2 l₁ l₂ => "d" ++ showCats l₁ ++ "#" ++ showCats l₂
   | .counts l => "n" ++ showList toString l
   | .rates d n => "r" ++ showList toString d ++ "/" ++ toString n
   | .error => "e"
 def showObs (o : Obs) : String := showOut o.1 ++ "@" ++ (match o.2 with | some n => toString n | none => "none")
 
-/-- c13_run <list|stream> <ncat|none|store flag> <applyFilters 0/1> <nBins> <nMag> <catalogs> <ops> -/
+/-- raw events (round 4): `<pf><pm><ps>:cell` or `<pf><pm><ps>:cell:own`, e.g. `101:3` -/
+def parseREv? (s : String) : Option REv :=
+  let flags (k : String) : Option (Bool × Bool × Bool) :=
+    match k.toList with
+    | [a, b, c] => if (a = '0' ∨ a = '1') ∧ (b = '0' ∨ b = '1') ∧ (c = '0' ∨ c = '1')
+        then some (a = '1', b = '1', c = '1') else none
+    | _ => none
+  match s.splitOn ":" with
+  | [k, c] => do
+      let (pf, pm, ps) ← flags k
+      let cn ← c.toNat?
+      some { pf := pf, pm := pm, ps := ps, cell := cn }
+  | [k, c, o] => do
+      let (pf, pm, ps) ← flags k
+      let cn ← c.toNat?
+      let on ← o.toNat?
+      some { pf := pf, pm := pm, ps := ps, cell := cn, own := on }
+  | _ => none
+
+def parseRCat? (pos : Nat) (s : String) : Option RCat :=
+  match s.splitOn "=" with
+  | [evs] => do
+      let evs ← parseList? parseREv? evs
+      some { id := some pos, events := evs }
+  | [hd, evs] => do
+      let evs ← parseList? parseREv? evs
+      match hd.splitOn "." with
+      | [i, g, k] => do
+          let i ← parseId? i
+          let g ← g.toNat?
+          let k ← k.toNat?
+          some { id := i, events := evs, grid := g, carries := k != 0 }
+      | _ => none
+  | _ => none
+
+def parseRCats? (s : String) : Option (List RCat) :=
+  let groups := s.splitOn ";"
+  ((List.range groups.length).zip groups).mapM (fun (i, g) => parseRCat? i g)
+
+/-- `<hasFilters><applyMct><filterSpatial>` -/
+def parseCfg? (s : String) : Option Cfg :=
+  match s.toList with
+  | [a, b, c] => if (a = '0' ∨ a = '1') ∧ (b = '0' ∨ b = '1') ∧ (c = '0' ∨ c = '1')
+      then some { hasFilters := a = '1', applyMct := b = '1', filterSpatial := c = '1' } else none
+  | _ => none
+
+/-- the initial state: `list <ncat|none>`, `stream <store>`, `streamn <store>:<ncat|none>` (a streamed forecast
+    constructed with `n_cat=`) -/
+def mkState? (kind a : String) (af : Bool) (nb nm : Nat) (cats : List Cat) : Option St :=
+  if kind = "list" then
+    (if a = "none" then some (initList cats none af nb nm)
+     else (a.toNat?).map (fun n => initList cats (some n) af nb nm))
+  else if kind = "stream" then some (initStream cats (a = "1") af nb nm)
+  else if kind = "streamn" then
+    match a.splitOn ":" with
+    | [s, n] => (parseId? n).map (fun n => initStreamN cats (s = "1") af n nb nm)
+    | _ => none
+  else none
+
+/-- c13_run <list|stream|streamn> <ncat|none|store flag|store:ncat> <applyFilters 0/1> <nBins> <nMag> <catalogs> <ops> -/
 def handle : List String → Option String
   | ["c13_run", kind, a, af, nb, nm, cats, ops] => some (
       match parseCats? cats, parseList? parseOp? ops, nb.toNat?, nm.toNat? with
       | some cats, some ops, some nb, some nm =>
-        let af := af = "1"
-        let st? : Option St :=
-          if kind = "list" then
-            (if a = "none" then some (initList cats none af nb nm)
-             else (a.toNat?).map (fun n => initList cats (some n) af nb nm))
-          else if kind = "stream" then some (initStream cats (a = "1") af nb nm)
-          else none
-        match st? with
+        match mkState? kind a (af = "1") nb nm cats with
         | some st => "|".intercalate ((run st ops).map showObs)
         | none => "bad-op"
       | _, _, _, _ => "bad-op")
+  -- c13_runcfg <kind> <a> <af> <cfg> <nBins> <nMag> <raw catalogs> <ops> : the same machine on the abstraction
+  --   (`absCat cfg`) of raw catalogs whose events say what each configured filter decides
+  | ["c13_runcfg", kind, a, af, cfg, nb, nm, cats, ops] => some (
+      match parseRCats? cats, parseCfg? cfg, parseList? parseOp? ops, nb.toNat?, nm.toNat? with
+      | some raw, some cfg, some ops, some nb, some nm =>
+        match mkState? kind a (af = "1") nb nm (raw.map (absCat cfg)) with
+        | some st => "|".intercalate ((run st ops).map showObs)
+        | none => "bad-op"
+      | _, _, _, _, _ => "bad-op")
+  -- c13_seq <af> <cfg> <raw catalogs> : the code's filter sequence on each raw catalog (number of events left, and
+  --   whether it agrees with filtering by the conjunction)
+  | ["c13_seq", af, cfg, cats] => some (
+      match parseRCats? cats, parseCfg? cfg with
+      | some raw, some cfg =>
+        let out := raw.map (fun c => if af = "1" then filtSeq cfg c else c)
+        ",".intercalate (out.map (fun c => toString c.events.length))
+      | _, _ => "bad-op")
   -- c13_abort <list|stream> <ncat|none|store> <af> <nBins> <nMag> <catalogs> <k> :
   --   what the next complete for-loop yields after a pass was aborted after k catalogs
   | ["c13_abort", kind, a, af, nb, nm, cats, k] => some (
